@@ -489,6 +489,8 @@ pub struct FaultCfg {
     pub max_crashes: usize,
     pub max_ckpts: usize,
     pub format_weights: [u32; 3],
+    /// Per crash, per mille: restart in a separate OS process with a tag skew.
+    pub os_process_rate: u32,
 }
 
 pub fn fault_cfg(rng: &mut Rng) -> FaultCfg {
@@ -501,6 +503,7 @@ pub fn fault_cfg(rng: &mut Rng) -> FaultCfg {
         max_ckpts: 1 + rng.below(6),
         // json is ~10x slower than bincode; keep it present but rarer
         format_weights: [2, 3, 5],
+        os_process_rate: 0,
     }
 }
 
@@ -531,9 +534,16 @@ pub fn gen_schedule(fc: &FaultCfg, rng: &mut Rng, nlines: usize, first_hash_seed
         }
         if crashes < fc.max_crashes && rng.chance(fc.crash_rate, 1000) {
             // Bias: half of the crashes land right after a checkpoint was just taken.
-            steps.push(Step::Crash {
-                hash_seed: rng.next_u64(),
-            });
+            if rng.chance(fc.os_process_rate, 1000) && last_ckpt_pos.is_some() {
+                steps.push(Step::CrashToOsProcess {
+                    hash_seed: rng.next_u64(),
+                    tag_skew: 1 + rng.below(40) as u32,
+                });
+            } else {
+                steps.push(Step::Crash {
+                    hash_seed: rng.next_u64(),
+                });
+            }
             crashes += 1;
             pos = last_ckpt_pos.unwrap_or(0);
         }
